@@ -24,11 +24,11 @@ def gen_case(rng):
     W = rng.randint(1, 12)
     N = rng.randint(1, 6)
     ns = rng.choice([1, 1, 2, 3, 4, 6])
-    kind = rng.choice(["bits", "bits", "float32", "int", "fortran", "special"])
+    kind = rng.choice(["bits", "bits", "float32", "int", "fortran", "special", "strided", "reversed"])
     series = []
     for _ in range(ns):
         T = W + rng.choice([0, 0, 1, 2, rng.randint(0, 40)])
-        if kind in ("bits", "fortran"):
+        if kind in ("bits", "fortran", "strided", "reversed"):
             cells = [[rng.getrandbits(64) for _ in range(N)] for _ in range(T)]
         elif kind == "special":
             sp = [0x7ff8000000000001, 0xfff8000000000abc, 0x7ff0000000000000, 0xfff0000000000000,
@@ -41,10 +41,16 @@ def gen_case(rng):
 
 
 def to_array(cells, kind):
-    if kind in ("bits", "special", "fortran"):
+    if kind in ("bits", "special", "fortran", "strided", "reversed"):
         a = np.array(cells, dtype=np.uint64).view(np.float64).reshape(len(cells), -1)
         if kind == "fortran":
             a = np.asfortranarray(a)
+        elif kind == "strided":            # every other row / column of a larger buffer
+            big = np.zeros((2 * a.shape[0], 2 * a.shape[1]))
+            big[::2, ::2] = a
+            a = big[::2, ::2]
+        elif kind == "reversed":           # negative strides
+            a = np.ascontiguousarray(a[::-1, ::-1])[::-1, ::-1]
         return a
     if kind == "float32":
         return np.array(cells, dtype=np.float32) / np.float32(8)
